@@ -76,6 +76,8 @@ def run_sim_check(spec, tier, seed, replay=None):
                         c.evs = []
                         c.meta.pop("blocked", None)
                         c.meta.setdefault("pipe_fd", 1001)
+                    # (cases whose scripts were grown adaptively in the first place come first: driver / fault / peer / TLS scenarios)
+                    extra.sort(key=lambda c: 0 if c.meta.get("kind") in ("todo", "async", "hand", "walk", "enum", "peer", "tls", "seqstop") else 1)
                     extra = adaptive.grow(extra[:600], spec.get("chooser", drivercases.chooser), rnd2, exe=exe)
                 impl = run_exe(exe, extra)
                 rep.cov["evaluations"] += len(extra)
